@@ -412,19 +412,23 @@ func rulePattern(c *Ctx) *RuleResult {
 			if !ok {
 				return
 			}
+			isLen := func(v ssa.Value) bool {
+				call, ok := stripConv(v).(*ssa.Call)
+				if !ok {
+					return false
+				}
+				cal := call.Call.StaticCallee()
+				return cal != nil && fullName(cal) == "(*strings.Builder).Len"
+			}
 			for w := range backSliceAllocs(iff.Cond, false) {
-				if call, ok := w.(*ssa.Call); ok {
-					if cal := call.Call.StaticCallee(); cal != nil && fullName(cal) == "(*strings.Builder).Len" {
-						// only when compared with zero
-						if bo, ok := iff.Cond.(*ssa.BinOp); ok {
-							if k, isC := constInt(bo.Y); isC && k == 0 {
-								badAt = p.InstrPos(iff)
-							}
-							if k, isC := constInt(bo.X); isC && k == 0 {
-								badAt = p.InstrPos(iff)
-							}
-						}
-					}
+				bo, ok := w.(*ssa.BinOp)
+				if !ok {
+					continue
+				}
+				kx, cx := constInt(bo.X)
+				ky, cy := constInt(bo.Y)
+				if (isLen(bo.X) && cy && ky == 0) || (isLen(bo.Y) && cx && kx == 0) {
+					badAt = p.InstrPos(bo)
 				}
 			}
 		})
